@@ -263,6 +263,24 @@ func cmdDeterminism(args []string) int {
 // WorkerSetup lets a world adjust the worker process (GC off etc.).
 type WorkerSetup interface{ SetupWorker() }
 
+// SingleProc is implemented by worlds whose workers must keep GOMAXPROCS=1.
+type SingleProc interface{ SingleProc() bool }
+
+// ProcsForShard: workers run with one P (allocation metering, cheap determinism; two Ps made the metered C09 world
+// 2.5x slower). VERIF_ODD_SHARD_PROCS=n gives the odd shards of worlds that drive the library sequentially n Ps, for
+// experiments; worlds that need library code which only goes parallel when it can (worker pools sized from
+// GOMAXPROCS) raise GOMAXPROCS themselves around the calls in question, which replay reproduces by construction. A
+// violation's replay file records the value in force and replay uses it.
+func ProcsForShard(w World, shard int) int {
+	if sp, ok := w.(SingleProc); ok && sp.SingleProc() {
+		return 1
+	}
+	if n, err := strconv.Atoi(os.Getenv("VERIF_ODD_SHARD_PROCS")); err == nil && n > 1 && shard%2 == 1 {
+		return n
+	}
+	return 1
+}
+
 func setupWorker(w World) {
 	if f := os.Getenv("VERIF_FORCE_GOMAXPROCS"); f != "" {
 		if n, err := strconv.Atoi(f); err == nil {
@@ -308,6 +326,9 @@ func cmdWorker(args []string) (code int) {
 			code = exitHarness
 		}
 	}()
+	if p := ProcsForShard(w, *shard); p > 1 && os.Getenv("VERIF_FORCE_GOMAXPROCS") == "" {
+		runtime.GOMAXPROCS(p)
+	}
 	start := time.Now()
 	classes := map[string]bool{}
 	maxRuns := 0
@@ -579,7 +600,7 @@ func runWorld(w World, tier string, seed uint64, total, nw int, budget time.Dura
 					from = runIdx + 1
 					continue
 				}
-				confirmed, msg := confirmCrash(self, w, tier, seed, runIdx, focus, tmp)
+				confirmed, msg := confirmCrash(self, w, tier, seed, runIdx, focus, tmp, ProcsForShard(w, shard))
 				mu.Lock()
 				oc.crashes++
 				if confirmed {
@@ -587,7 +608,7 @@ func runWorld(w World, tier string, seed uint64, total, nw int, budget time.Dura
 					if strings.Contains(msg, "VERIF-HANG:") {
 						v = &Violation{Property: w.ID(), Oracle: "hang", Site: "library call does not return", Msg: fmt.Sprintf("a library call did not return within %v, twice (in the worker and in a fresh process replaying the same run): %s", HangLimit(), tail(head(msg, 2500), 2500)), Focus: focus}
 					}
-					rf := &ReplayFile{Property: w.ID(), World: w.Name(), Tier: tier, Seed: seed, Run: runIdx, Focus: focus, FromSeed: true, Violation: v,
+					rf := &ReplayFile{Property: w.ID(), World: w.Name(), Tier: tier, Seed: seed, Run: runIdx, Focus: focus, FromSeed: true, Violation: v, Procs: ProcsForShard(w, shard),
 						Trace: []string{"process died; stderr tail:", tail(msg, 1500)}}
 					_ = os.MkdirAll(ReplayDir, 0o755)
 					path := filepath.Join(ReplayDir, fmt.Sprintf("%s-%s-s%d-r%d-crash.json", w.ID(), w.Name(), seed, runIdx))
@@ -608,8 +629,8 @@ func runWorld(w World, tier string, seed uint64, total, nw int, budget time.Dura
 	wg.Wait()
 }
 
-func confirmCrash(self string, w World, tier string, seed uint64, runIdx int, focus map[string]int, tmp string) (bool, string) {
-	rf := &ReplayFile{Property: w.ID(), World: w.Name(), Tier: tier, Seed: seed, Run: runIdx, Focus: focus, FromSeed: true}
+func confirmCrash(self string, w World, tier string, seed uint64, runIdx int, focus map[string]int, tmp string, procs int) (bool, string) {
+	rf := &ReplayFile{Property: w.ID(), World: w.Name(), Tier: tier, Seed: seed, Run: runIdx, Focus: focus, FromSeed: true, Procs: procs}
 	p := filepath.Join(tmp, fmt.Sprintf("crash-%d.json", runIdx))
 	b, _ := json.Marshal(rf)
 	_ = os.WriteFile(p, b, 0o644)
